@@ -56,7 +56,8 @@ def run(ctx):
     ctx.assumptions += [
         'the judged language is the STRICT one: a text is judged only when the POSIX table alone determines its tree; forms '
         'that awks accept through yacc shift preferences (2 ^ -x, $-1, a !b, a ++b, a ? b : c = d, !x = y, 1 && x = 1, $$i++, '
-        'a < b | getline, x = "c" | getline, unparenthesised relational operators and getline in a print argument, '
+        'a < b | getline, x = "c" | getline, unparenthesised relational operators and getline in a print argument (also inside '
+        'a subscript there: print B[a > b]), '
         'getline < non-primary) are never generated unparenthesised',
         'operands are names, numbers 1-9, short strings and regexes, arr[i], length(e); getline targets are plain names',
         'both texts are parsed inside one minimal program per context; other statement-level contexts are not covered',
@@ -65,20 +66,21 @@ def run(ctx):
     prods = tla_set(ALL_PRODS)
     # 1. the model: the shift/reduce machine returns the printed tree on both printed texts
     if q:
-        mc = ctx.cfg('MC_Grammar', constants={'MaxOps': 2, 'MaxOdd': 0, 'Prods': prods})
+        mc = ctx.cfg('MC_Grammar', constants={'MaxOps': 2, 'MaxOdd': 0, 'Prods': prods, 'Ctxs': '{"stmt", "printgt", "cond"}'})
     else:
         mc = ctx.cfg('MC_Grammar', constants={'MaxOps': 2, 'MaxOdd': 1, 'Prods': tla_set(ALL_PRODS + MORE_ASG)})
     ctx.tlc('MC_Grammar', mc, timeout=1500, heap='8g')
     # 2. spec -> code
     if q:
-        gen = ctx.cfg('Gen_Grammar', constants={'MaxOps': 2, 'MaxOdd': 1, 'Prods': prods})
+        gen = ctx.cfg('Gen_Grammar', constants={'MaxOps': 2, 'MaxOdd': 1, 'Prods': prods, 'OddCtxs': '{"stmt", "printgt"}'})
         ctx.tlc('Gen_Grammar', gen, capture='cases.ndjson', timeout=600)
         ctx.cov['exhaustive'] = True
-        mincases = 50000
+        mincases = 25000
     else:
-        gen = ctx.cfg('Gen_Grammar', constants={'MaxOps': 2, 'MaxOdd': 3, 'Prods': tla_set(ALL_PRODS + MORE_ASG)})
+        gen = ctx.cfg('Gen_Grammar', constants={'MaxOps': 2, 'MaxOdd': 2, 'Prods': tla_set(ALL_PRODS + MORE_ASG)})
         ctx.tlc('Gen_Grammar', gen, capture='cases.ndjson', timeout=1500, heap='8g')
-        gen3 = ctx.cfg('Gen_Grammar', name='Gen_Grammar_3', constants={'MaxOps': 3, 'MaxOdd': 0, 'MinLen': 6, 'Prods': prods})
+        gen3 = ctx.cfg('Gen_Grammar', name='Gen_Grammar_3', constants={'MaxOps': 3, 'MaxOdd': 0, 'MinLen': 6, 'Prods': prods,
+                                                                       'Ctxs': '{"stmt", "printgt", "printpipe", "cond"}'})
         ctx.tlc('Gen_Grammar', gen3, capture='cases.ndjson', timeout=2400, heap='10g')
         sim = ctx.cfg('Gen_Grammar', name='Gen_Grammar_sim', constants={'MaxOps': 6, 'MaxOdd': 3, 'Prods': tla_set(ALL_PRODS + MORE_ASG)})
         ctx.tlc('Gen_Grammar', sim, capture='cases.ndjson', simulate=12000, depth=30, workers=4, timeout=900)
